@@ -279,8 +279,8 @@ class DecFileParser:
         if self._additional_decay_models is None:
             self._additional_decay_models = models
         else:
-            self._additional_decay_models = chain.from_iterable(
-                (self._additional_decay_models, models)
+            self._additional_decay_models = tuple(
+                chain.from_iterable((self._additional_decay_models, models))
             )
 
     def _load_grammar(
@@ -325,19 +325,22 @@ class DecFileParser:
         and inject the names of the EvtGen models.
         """
 
-        if self._additional_decay_models is None:
-            decay_models = known_decay_models  # type: tuple[str, ...]
-        else:
-            decay_models = tuple(
-                chain.from_iterable([known_decay_models, self._additional_decay_models])
-            )
-
         def edit_model_name_terminals(t: TerminalDef) -> None:
             """
             Edits the terminals of the grammar to replace the model name placeholder with the actual names of the models,
             see ``Model_NAME_PLACEHOLDER`` in the default grammar file ``decaylanguage/data/decfile.lark``.
             The decay models are sorted by length and escaped to match the default Lark behavior.
+            The additional models are looked up when the parser is built, so that models loaded
+            after the grammar has been accessed are taken into account as well.
             """
+            if self._additional_decay_models is None:
+                decay_models = known_decay_models  # type: tuple[str, ...]
+            else:
+                decay_models = tuple(
+                    chain.from_iterable(
+                        [known_decay_models, self._additional_decay_models]
+                    )
+                )
 
             modelstr = rf"(?:{'|'.join(re.escape(dm) for dm in sorted(decay_models, key=len, reverse=True))})"
             if t.name == "MODEL_NAME":
